@@ -4,6 +4,7 @@ import OvniModel.Lemmas.SystemMain
 import OvniModel.Lemmas.SystemOrder
 import OvniModel.Lemmas.SystemConflict
 import OvniModel.Lemmas.SystemContent
+import OvniModel.Lemmas.SystemSafe
 
 /-!
 # C15 — metadata merge is distribution-independent; conflicts are refused cleanly
@@ -93,6 +94,26 @@ theorem build_perm_invariant_partial (ss ss' : List StreamMeta)
     (build .asIs ss).okPart = (build .asIs ss').okPart :=
   okPart_eq_of_transfer (fun _ hb => build_ok_transfer hd hu hc' hb)
     (fun _ hb => build_ok_transfer hd' hu.symm hc hb)
+
+/-- The crash hypothesis in explicit form (`CpuOrderSafe`, decidable, defined
+    in `Emu/SystemSpec.lean` without reference to `build`): for every loom, going
+    through the streams in load order and through each CPU list front to back,
+    every entry whose physical id was not met before carries an index that is at
+    least the number of distinct CPUs met before (or a negative one). -/
+theorem safe_order_excludes_crash (ss : List StreamMeta) (h : CpuOrderSafe ss) :
+    build .asIs ss ≠ .crash :=
+  build_asIs_ne_crash_of_safe h
+
+/-- `build_perm_invariant_partial` with the explicit hypothesis. -/
+theorem build_perm_invariant_safe (ss ss' : List StreamMeta)
+    (hd : RelpathsDistinct ss) (hd' : RelpathsDistinct ss') (hu : SameUnion ss ss')
+    (hs : CpuOrderSafe ss) (hs' : CpuOrderSafe ss') :
+    (build .asIs ss).okPart = (build .asIs ss').okPart :=
+  build_perm_invariant_partial ss ss' hd hd' hu (build_asIs_ne_crash_of_safe hs)
+    (build_asIs_ne_crash_of_safe hs')
+
+example : CpuOrderSafe wBig ∧ CpuOrderSafe wBig' ∧ CpuOrderSafe wAsc ∧ ¬ CpuOrderSafe wDesc ∧
+    ¬ CpuOrderSafe wTwoPhy := by decide
 
 /-- The hypothesis cannot be dropped for the code as it is: two presentations
     of the same union, one accepted, one crashing. -/
